@@ -240,6 +240,32 @@ fn test(c: &Case, st: &mut Stats) -> TestResult {
                 }
                 Some(ok) => ensure!(ok, "c04-false-fail", "sealed message does not validate under its own credentials"),
             }
+            // the same sealed builder serialised the other ways (into a used buffer, cloned, made
+            // owned after or before sealing): each of those is "the message sealed with K" too
+            if seed % 2 == 0 {
+                match guard(|| spec.lib_build_paths()).map_err(|p| Fail::new("c04-panic", format!("builder panicked on another serialisation path: {}", p)))? {
+                    Ok(paths) => {
+                        for (how, bytes) in paths {
+                            let what = format!("sealed message serialised by {}", how);
+                            match check_validate(&bytes, &spec.creds, st, &what)? {
+                                Some(true) => {}
+                                Some(false) => return Err(Fail::new("c04-false-fail", format!("{} does not validate under the credentials it was sealed with: {}", what, hex_short(&bytes)))),
+                                None => {
+                                    if matches!(refstun::parse(&bytes), RefParse::Accept(_)) {
+                                        return Err(Fail::new(
+                                            "c04-false-fail",
+                                            format!("{} is well-formed but refused by the parser, so it cannot be validated under its own credentials: {}", what, hex_short(&bytes)),
+                                        ));
+                                    }
+                                    st.class("a further serialisation path gives a buffer that is not well-formed (C12's business)");
+                                }
+                            }
+                        }
+                        st.class("sealed message validated on 7 further serialisation paths");
+                    }
+                    Err(_) => st.class("a further serialisation path refused (C11/C12's business)"),
+                }
+            }
             st.class(match (&spec.creds, spec.seal.mi, spec.seal.sha256) {
                 (Creds::Short { .. }, true, false) => "short-term SHA-1",
                 (Creds::Short { .. }, false, true) => "short-term SHA-256",
